@@ -85,8 +85,9 @@ class PolicyModel:
                     scheme = None  # the deprecated 'all' pseudo-scheme: same slot as the bare context-wide spelling
             else:
                 cat, scheme, key = parts
-                if scheme == "context":
-                    scheme = None
+                if scheme in ("context", "all"):
+                    scheme = None  # '<cat>__context__<key>' and the category-wide '<cat>__all__<option>'
+                cat = cat or None
             if cat:
                 self.categories.add(cat)
             if scheme is None and key in ("default", "deprecated"):
